@@ -20,7 +20,8 @@ def run_tlc(module, cfg=None, workers=1, env=None, extra=(), timeout=3600, jvm=(
     """Run TLC on spec/<module>.tla. Returns dict(rc, out, states, distinct, wall)."""
     os.makedirs(OUT, exist_ok=True)
     meta = tempfile.mkdtemp(prefix="tlcmeta", dir=OUT)
-    cmd = ["java", "-XX:+UseParallelGC", f"-Xmx{heap}", f"-DTLA-Library={SPEC}", *jvm, "-cp", JAR, "tlc2.TLC",
+    # -Xss: the monitor's fold builds deeply nested lazy values (one level per clause and event)
+    cmd = ["java", "-XX:+UseParallelGC", f"-Xmx{heap}", "-Xss64m", f"-DTLA-Library={SPEC}", *jvm, "-cp", JAR, "tlc2.TLC",
            "-workers", str(workers),
            "-metadir", meta, "-noGenerateSpecTE"]
     if cfg:
